@@ -259,6 +259,11 @@ func filteredPaginateCallback(c *Ctx, parent *ssa.Function, call *ssa.Call, cb *
 			nApp++
 			// the store must be unreachable when accumulate-true edges are removed
 			guarded := !ir.Reaches(cb, in, ir.Cut{Edges: tr})
+			if !guarded {
+				// accumulate may be handed to a helper that folds it into a verdict the callback switches on
+				accName := acc.Name()
+				guarded = w.Guarded(cb, in, func(p ir.Pred) bool { return p.Pol && p.E.Op == "param" && p.E.Name == accName }, 2)
+			}
 			r.Require(guarded, "A12.accumulate-guard", key+"|store:"+addrName, pos(c, in), "the result slice is extended only when accumulate is true", "store to captured variable reachable with accumulate == false")
 			// (d) element appended is the decoded value
 			e := w.ExprOf(st.Val)
